@@ -1755,6 +1755,20 @@ fn gen(prop: &str, tier: &str, seed: u64) -> Vec<String> {
         let _ = idx;
         return v;
     }
+    // every run: solid entries that hold NO inner entry, under every cipher and mode, stored and compressed, built
+    // (SolidEntryBuilder) and streamed (SolidArchive): the stream is empty, the IV and the padding block are all there is
+    // (seeded C14-4: the IV joined onto the first stream buffer is dropped when there is none)
+    for (ci, (enc, mode)) in [(0u8, 1u8), (1, 0), (1, 1), (2, 0), (2, 1)].into_iter().enumerate() {
+        for comp in [0u8, 2] {
+            let cfg = Cfg { comp, level: 1000, enc, mode, kdf: (ci % 2) as u8, rounds: 1 };
+            let pw = gen_pw(&mut r);
+            let bufs = gen_bufs(&mut r);
+            v.extend(emit(&mut r, "solid", &[Item::SB(cfg.clone(), Vec::new(), Vec::new())], &pw, &bufs, 1));
+            if comp == 0 {
+                v.extend(emit(&mut r, "sarch", &[Item::SA(cfg, Vec::new())], &pw, &bufs, 1));
+            }
+        }
+    }
     for _ in 0..n_grid {
         v.extend(scenario(&mut r, k, false, idx));
         k += 1;
